@@ -17,7 +17,7 @@ Definition plain_matched (st : state) (q : query) : res (list lrow) :=
 (* the same collection with another set of secondary indexes *)
 Definition with_indexes (st : state) (ixs : list index) : state :=
   let sch := st_sch st in
-  mkst (mksch (s_id sch) (s_fields sch) ixs (s_next sch) (s_nz sch)) (st_docs st).
+  mkst (mksch (s_id sch) (s_fields sch) ixs (s_next sch) (s_fl sch)) (st_docs st).
 
 (* every converted constant can be a key bound (not a negative zero when the key encoder keeps the
    sign of zero, no string longer than the column), and no row holds a negative zero in that case *)
@@ -152,7 +152,7 @@ Definition rows_agree (st : state) : Prop :=
   forall r f, In r (live_rows st) -> In f (s_fields (st_sch st)) ->
     row_get (l_row r) (f_col f) =
       match doc_field (l_doc r) (f_name f) with
-      | Some v => match conv_field (f_type f) v with Ok c => c | _ => CNull end
+      | Some v => match conv_field (s_strict (st_sch st)) (f_type f) v with Ok c => c | _ => CNull end
       | None => CNull
       end.
 Definition ints_exact_rows (st : state) : Prop :=
@@ -169,9 +169,9 @@ Proof.
   apply bytes_eqb_eq; auto.
 Qed.
 
-Lemma spec_conv_not_int t v : t <> TInt -> spec_conv t v = conv_field t v.
+Lemma spec_conv_not_int b t v : t <> TInt -> spec_conv t v = conv_field b t v.
 Proof. destruct t; try congruence; destruct v; reflexivity. Qed.
-Lemma spec_conv_int_nonnum v : (forall n, v <> JNum n) -> spec_conv TInt v = conv_field TInt v.
+Lemma spec_conv_int_nonnum b v : (forall n, v <> JNum n) -> spec_conv TInt v = conv_field b TInt v.
 Proof. destruct v; intros H; try reflexivity. exfalso; eapply H; eauto. Qed.
 
 Lemma val_rel st r name :
@@ -185,12 +185,14 @@ Proof.
   rewrite (RA r f Hin Fin). rewrite Fname.
   destruct (doc_field (l_doc r) name) as [v|] eqn:DF.
   2:{ destruct (f_type f); simpl; auto. }
-  destruct (f_type f) eqn:T; try (rewrite spec_conv_not_int by congruence; simpl; reflexivity).
+  destruct (f_type f) eqn:T;
+    try (rewrite (spec_conv_not_int (s_strict (st_sch st))) by congruence; simpl; reflexivity).
   (* INTEGER *)
-  destruct v as [| |n| | |]; simpl; auto.
-  right. exists n. assert (X : int_exact n).
+  destruct v as [| |n| | |]; try (simpl; auto; fail).
+  assert (X : int_exact n).
   { eapply IE; eauto. rewrite Fname. exact DF. }
-  rewrite (conv_i64_exact n X). auto.
+  rewrite (conv_field_int_exact _ n X). simpl.
+  right. exists n. auto.
 Qed.
 
 (* relation of the converted comparisons *)
@@ -208,7 +210,7 @@ Definition res_rel {A B} (R : A -> B -> Prop) (a : res A) (b : res B) : Prop :=
 Lemma conv_cmp_rel sch c :
   (forall f n, bytes_eqb (c_field c) (s_id sch) = false -> find_field sch (c_field c) = Some f ->
                f_type f = TInt -> c_val c = JNum n -> int_exact n) ->
-  res_rel (cc_rel sch) (conv_cmp_with conv_field sch c) (conv_cmp_with spec_conv sch c).
+  res_rel (cc_rel sch) (conv_cmp_with (conv_field (s_strict sch)) sch c) (conv_cmp_with spec_conv sch c).
 Proof.
   intros HI. unfold conv_cmp_with, cc_rel, is_int.
   destruct (bytes_eqb (c_field c) (s_id sch)) eqn:EI.
@@ -216,18 +218,18 @@ Proof.
   - destruct (find_field sch (c_field c)) as [f|] eqn:FF; simpl; auto.
     destruct (f_type f) eqn:T.
     + (* INTEGER *)
-      destruct (c_val c) as [| |n| | |] eqn:CV; simpl; auto; rewrite ?EI, ?FF, ?T; simpl; auto.
-      repeat split; auto. right. exists n.
+      destruct (c_val c) as [| |n| | |] eqn:CV; try (simpl; auto; rewrite ?EI, ?FF, ?T; simpl; auto; fail).
       assert (X : int_exact n) by (eapply HI; eauto).
-      rewrite (conv_i64_exact n X). auto.
-    + rewrite spec_conv_not_int by congruence.
-      destruct (conv_field TDbl (c_val c)); simpl; auto. rewrite EI, FF, T. simpl; auto.
-    + rewrite spec_conv_not_int by congruence.
-      destruct (conv_field TStr (c_val c)); simpl; auto. rewrite EI, FF, T. simpl; auto.
-    + rewrite spec_conv_not_int by congruence.
-      destruct (conv_field TBool (c_val c)); simpl; auto. rewrite EI, FF, T. simpl; auto.
-    + rewrite spec_conv_not_int by congruence.
-      destruct (conv_field TUuid (c_val c)); simpl; auto. rewrite EI, FF, T. simpl; auto.
+      rewrite (conv_field_int_exact _ n X). simpl. rewrite EI, FF, T. simpl.
+      repeat split; auto. right. exists n. auto.
+    + rewrite (spec_conv_not_int (s_strict sch)) by congruence.
+      destruct (conv_field (s_strict sch) TDbl (c_val c)); simpl; auto. rewrite EI, FF, T. simpl; auto.
+    + rewrite (spec_conv_not_int (s_strict sch)) by congruence.
+      destruct (conv_field (s_strict sch) TStr (c_val c)); simpl; auto. rewrite EI, FF, T. simpl; auto.
+    + rewrite (spec_conv_not_int (s_strict sch)) by congruence.
+      destruct (conv_field (s_strict sch) TBool (c_val c)); simpl; auto. rewrite EI, FF, T. simpl; auto.
+    + rewrite (spec_conv_not_int (s_strict sch)) by congruence.
+      destruct (conv_field (s_strict sch) TUuid (c_val c)); simpl; auto. rewrite EI, FF, T. simpl; auto.
 Qed.
 
 Lemma mapres_rel {A B C} (R : B -> C -> Prop) (f : A -> res B) (g : A -> res C) (l : list A) :
@@ -245,11 +247,11 @@ Qed.
 Lemma conv_groups_rel sch q :
   ints_exact_query sch q ->
   res_rel (Forall2 (Forall2 (cc_rel sch)))
-          (conv_groups_with conv_field sch (q_groups q)) (conv_groups_with spec_conv sch (q_groups q)).
+          (conv_groups_with (conv_field (s_strict sch)) sch (q_groups q)) (conv_groups_with spec_conv sch (q_groups q)).
 Proof.
   intros HI. unfold conv_groups_with. apply mapres_rel. intros g Hg.
   unfold conv_group_with. destruct g as [|c g']; simpl; auto.
-  apply (mapres_rel (cc_rel sch) (conv_cmp_with conv_field sch) (conv_cmp_with spec_conv sch) (c :: g')).
+  apply (mapres_rel (cc_rel sch) (conv_cmp_with (conv_field (s_strict sch)) sch) (conv_cmp_with spec_conv sch) (c :: g')).
   intros c0 Hc0. apply conv_cmp_rel. intros f n E FF T CV. eapply HI; eauto.
 Qed.
 
@@ -313,7 +315,7 @@ Theorem plain_is_spec st q :
 Proof.
   intros RA IE IQ. unfold plain_matched, spec_matched, conv_groups.
   pose proof (conv_groups_rel (st_sch st) q IQ) as CR.
-  destruct (conv_groups_with conv_field (st_sch st) (q_groups q)) as [gs|e|],
+  destruct (conv_groups_with (conv_field (s_strict (st_sch st))) (st_sch st) (q_groups q)) as [gs|e|],
            (conv_groups_with spec_conv (st_sch st) (q_groups q)) as [gs'|e'|];
     simpl in CR; try contradiction; simpl; auto; try congruence.
   destruct (check_order (st_sch st) (q_order q)); simpl; auto.
